@@ -41,7 +41,7 @@ pub fn model_on() -> bool {
 /// A MiniAllocator that only has to exist: root + one stream entry of length L0,
 /// no sectors.  The storage functions never reach it while the model is on.
 pub type TF = ArrFile<8>;
-fn tiny_minialloc() -> MiniAllocator<TF> {
+pub(crate) fn tiny_minialloc() -> MiniAllocator<TF> {
     let mut root = em_blank();
     root.ty = 5; root.nlen = 10;
     let rn = b"Root Entry";
@@ -152,7 +152,7 @@ pub struct Model {
     pub pos: usize,
 }
 
-fn init() -> Model {
+pub(crate) fn init() -> Model {
     let content: [u8; L0] = kani::any();
     let mut b = [0u8; CAP];
     let mut i = 0;
